@@ -163,8 +163,9 @@ def _derive(ctx, q, term):
         for conds, leaf in branches(term):
             case = ndim_case(conds, pname)
             if case is None:
-                if leaf[0] == 'ret' and leaf[1] == T.NONE:
-                    continue            # fall-through for other ndim: returns None
+                if (leaf[0] == 'ret' and (leaf[1] == T.NONE or (leaf[1][0] == 'glob' and leaf[1][1].endswith('__unspecified__')))) \
+                        or leaf[0] == 'raise':
+                    continue            # fall-through for other ndim (outside the property): returns None / refuses
                 obs.append(Ob(f"E5:{fi.name}:?", "E5.axis", where, "inconclusive", "unrecognised ndim dispatch"))
                 continue
             seen.add(case)
